@@ -211,8 +211,12 @@ func callSites(fn *ast.FuncDecl) []site {
 }
 
 func main() {
+	if len(os.Args) == 3 && os.Args[1] == "-writes" {
+		emitWrites(os.Args[2])
+		return
+	}
 	if len(os.Args) != 2 {
-		die("usage: extract_tables <repo dir>")
+		die("usage: extract_tables [-writes] <repo dir>")
 	}
 	repo := os.Args[1]
 	lexer := parse(filepath.Join(repo, "lexer.go"))
